@@ -768,7 +768,7 @@ class PackageSet:
         axisSpecifier = axisName + '@'
         abbreviatedStep = pyparsing.Keyword('.')
 
-        sQStringLiteral = pyparsing.QuotedString("'")
+        sQStringLiteral = pyparsing.QuotedString("'", convert_whitespace_escapes=False)
         sQStringLiteral.set_parse_action(
             lambda s, loc, toks: StringLiteral(s, loc, toks, False,
                                                self.__stringFunctions,
